@@ -55,6 +55,9 @@ pub trait CoordNum: Copy + PartialEq + PartialOrd
     ;
 }
 
+/// sqrt(a^2 + b^2): abstract
+pub uninterp spec fn m_hyp(a: int, b: int) -> int;
+
 /// geo_types::CoordFloat fragment: negation is exact; the trigonometric functions are UNINTERPRETED
 /// (nothing is assumed about the values they return)
 pub trait CoordFloat: CoordNum + core::ops::Neg<Output = Self> {
@@ -64,6 +67,18 @@ pub trait CoordFloat: CoordNum + core::ops::Neg<Output = Self> {
     fn abs(self) -> (r: Self) ensures r.val() == (if self.val() >= 0 { self.val() } else { -self.val() });
     /// num_traits::NumCast::from (ASSUMED: converting a literal into a float scalar succeeds; its value is not used)
     fn from<N>(n: N) -> (r: Option<Self>) ensures r is Some;
+    /// f64::hypot: abstract (a function of its arguments)
+    fn hypot(self, other: Self) -> (r: Self) ensures r.val() == m_hyp(self.val(), other.val());
+    /// scalar division (ASSUMED, "machine arithmetic treated as mathematical"): never panics for floats; of the quotient
+    /// only its position relative to 0 and 1 is assumed, for a positive divisor: a/b < 0 iff a < 0, a/b <= 0 iff a <= 0,
+    /// a/b > 1 iff a > b, a/b >= 1 iff a >= b
+    proof fn ax_div()
+        ensures
+            Self::obeys_div_spec(),
+            forall|a: Self, b: Self| #![trigger a.div_req(b)] a.div_req(b),
+            forall|a: Self, b: Self| #![trigger a.div_spec(b)] b.val() > 0 ==>
+                ((a.div_spec(b).val() < 0) == (a.val() < 0)) && ((a.div_spec(b).val() <= 0) == (a.val() <= 0))
+                && ((a.div_spec(b).val() > 1) == (a.val() > b.val())) && ((a.div_spec(b).val() >= 1) == (a.val() >= b.val()));
     fn to_radians(self) -> Self;
     fn sin_cos(self) -> (Self, Self);
     fn tan(self) -> Self;
